@@ -278,6 +278,14 @@ def call_builtin(ex, st: State, name: str, args, kwargs, node):
             for k, v in kwargs.items():
                 m.dict_set(ex, st, d, vstr(k), v)
             return [(st, d)]
+        if len(args) == 1 and not kwargs:
+            src = ex.concrete_kind(st, args[0], ('ref',))
+            if m.container_cls(ex, st, src) == 'dict':
+                # shallow copy of a dict: same domain, same values, new identity
+                d = st.alloc('dict')
+                for a in ('DK', 'DV', 'DN'):
+                    st.set_arr(a, z3.Store(st.get_arr(a), d.e, z3.Select(st.get_arr(a), src.e)))
+                return [(st, d)]
         raise Unsupported('dict(x)')
     if name in ('set', 'frozenset'):
         if not args:
@@ -560,6 +568,23 @@ def call_method(ex, st: State, recv: V, name: str, args, kwargs, node):
             return m.getitem(ex, st, recv, args[0], node)
         if name == '__init__':
             return [(st, NONE)]
+        if name == 'update' and len(args) == 1 and not kwargs:
+            other = ex.concrete_kind(st, args[0], ('ref',))
+            if m.container_cls(ex, st, other) == 'dict':
+                dk, dv = st.get_arr('DK'), st.get_arr('DV')
+                rk, rv = fresh(z3.Select(dk, recv.e).sort(), 'upd_keys'), fresh(z3.Select(dv, recv.e).sort(), 'upd_vals')
+                kq = z3.Const('k!upd', Val)
+                ok = z3.Select(z3.Select(dk, other.e), kq)
+                st.assume(z3.ForAll([kq], z3.And(
+                    z3.Select(rk, kq) == z3.Or(z3.Select(z3.Select(dk, recv.e), kq), ok),
+                    z3.Select(rv, kq) == z3.If(ok, z3.Select(z3.Select(dv, other.e), kq), z3.Select(z3.Select(dv, recv.e), kq)))))
+                n = fresh(IntS, 'upd_n')
+                st.assume(z3.And(n >= z3.Select(st.get_arr('DN'), recv.e), n >= z3.Select(st.get_arr('DN'), other.e)))
+                st.set_arr('DK', z3.Store(dk, recv.e, rk))
+                st.set_arr('DV', z3.Store(dv, recv.e, rv))
+                st.set_arr('DN', z3.Store(st.get_arr('DN'), recv.e, n))
+                return [(st, NONE)]
+            raise Unsupported('dict.update')
         if name == 'update':
             raise Unsupported('dict.update')
     if cc == 'set':
